@@ -71,6 +71,7 @@ def whichPath (P : Params) (p : Path) : String :=
 def label (P : Params) (seenBefore : Bool) : Eff → Option (String × String)
   | .openTrunc p => some ("open", whichPath P p)
   | .collect i => some (s!"collect{i}", "-")
+  | .encode => some ("encode", "-")
   | .write p _ _ => some ("write", whichPath P p)
   | .close p => some ("close", whichPath P p)
   | .rename s d => some ("rename", whichPath P s ++ ">" ++ whichPath P d)
